@@ -1,6 +1,7 @@
 package main
 
 import (
+	"bufio"
 	"bytes"
 	"runtime"
 	"context"
@@ -131,6 +132,10 @@ func parseValues(out string) map[string]string {
 }
 
 // checkFunction discharges all obligations of an encoded function.
+// dontCare: obligations recorded as not owned when the claims were made; they are not raced again (their phase-1
+// answer is reported as is), which keeps the quick tier fast.
+var dontCare = map[string]bool{}
+
 func checkFunction(e *Enc, tier string, seed int, keepDir string) []*Result {
 	quickMs, raceMs := 4000, 10000
 	if tier == "thorough" {
@@ -142,7 +147,7 @@ func checkFunction(e *Enc, tier string, seed int, keepDir string) []*Result {
 	}
 	// phase 1: one incremental run
 	inc := e.incrementalScript()
-	out, secs, _ := runSolver(context.Background(), solvers[0], inc, quickMs, seed)
+	out, secs := runIncremental(solvers[0], inc, quickMs, seed)
 	answers := map[string]string{}
 	cur := ""
 	for _, l := range strings.Split(out, "\n") {
@@ -190,8 +195,11 @@ func checkFunction(e *Enc, tier string, seed int, keepDir string) []*Result {
 		if o.Cover {
 			want = "sat"
 		}
-		if a != want {
+		if a != want && !dontCare[o.Name] {
 			redo = append(redo, i)
+		}
+		if a == "" {
+			r.Status = "unknown"
 		}
 	}
 	// phase 2: standalone race for everything not settled as wanted
@@ -265,4 +273,44 @@ func race(e *Enc, o *Obligation, ms, seed int) *Result {
 	}
 	best.Output = strings.Join(outs, "\n")
 	return best
+}
+
+// runIncremental streams the incremental script's answers and stops the solver early when it keeps failing to decide
+// (the remaining obligations then go to the parallel standalone race instead of waiting out one time-out each).
+func runIncremental(cfg SolverCfg, script string, timeoutMs, seed int) (string, float64) {
+	solverSlots <- struct{}{}
+	defer func() { <-solverSlots }()
+	args := cfg.Args(timeoutMs, seed)
+	cmd := exec.Command(args[0], args[1:]...)
+	cmd.Stdin = strings.NewReader(script)
+	stdout, err := cmd.StdoutPipe()
+	if err != nil {
+		return "", 0
+	}
+	cmd.Stderr = nil
+	t0 := time.Now()
+	if err := cmd.Start(); err != nil {
+		return "", 0
+	}
+	var sb strings.Builder
+	undecided := 0
+	sc := bufio.NewScanner(stdout)
+	sc.Buffer(make([]byte, 1<<20), 1<<24)
+	for sc.Scan() {
+		l := sc.Text()
+		sb.WriteString(l + "\n")
+		t := strings.TrimSpace(l)
+		switch t {
+		case "sat", "unsat":
+			undecided = 0
+		case "unknown", "timeout":
+			undecided++
+		}
+		if undecided >= 4 {
+			cmd.Process.Kill()
+			break
+		}
+	}
+	cmd.Wait()
+	return sb.String(), time.Since(t0).Seconds()
 }
